@@ -63,7 +63,7 @@ def outcome? : SExp → Option Outcome
   | .sym "su" => some .success
   | .sym "wa" | .sym "wa2" | .sym "wa3" => some .warning
   | .sym "fa" | .sym "fa2" | .sym "fa3" => some .failure
-  | .sym "ex" | .sym "ex2" | .sym "ex3" | .sym "ex4" => some .exception
+  | .sym "ex" | .sym "ex2" | .sym "ex3" | .sym "ex4" | .sym "ex5" => some .exception
   | .sym "ca" => some .cancel
   | _ => none
 
